@@ -246,6 +246,8 @@ class Builder:
     def insert_op(self, bad=False, big=False):
         rng, a = self.rng, self.a
         si = rng.randrange(3)
+        # one insertion in eight uses the boundary shapes of the synthesis grammar (maximal names, TXT of 255 / 3825 bytes)
+        big = big or rng.random() < 0.125
         r = T.rand_record(rng, boundary=big)
         while not T.grammar_ok(r):
             r = T.rand_record(rng)
